@@ -3,6 +3,7 @@
 package mc
 
 import (
+	mckeeper "github.com/elys-network/elys/x/masterchef/keeper"
 	"fmt"
 	tiertypes "github.com/elys-network/elys/x/tier/types"
 	"sort"
@@ -148,12 +149,89 @@ func (l *OpLib) Add(name, kind string, dev int, plan func(w *World, p *BlockPlan
 func (l *OpLib) Get(name string) *Op {
 	o, ok := l.ops[name]
 	if !ok {
+		if c := l.blockOf(name); c != nil {
+			return c
+		}
 		panic("unknown op " + name)
 	}
 	return o
 }
 
-func (l *OpLib) Has(name string) bool { _, ok := l.ops[name]; return ok }
+func (l *OpLib) Has(name string) bool {
+	if _, ok := l.ops[name]; ok {
+		return true
+	}
+	return l.blockOf(name) != nil
+}
+
+// BlockOf names the composite op that places the transactions of several ops in ONE block, in the given
+// order ("blk[a+b+c]"): every component is planned on the pre-block state; governance steps are
+// concatenated, the block carries a price feed only if every component does, the first fed price wins.
+func BlockOf(names ...string) string { return "blk[" + strings.Join(names, "+") + "]" }
+
+func (l *OpLib) blockOf(name string) *Op {
+	if !strings.HasPrefix(name, "blk[") || !strings.HasSuffix(name, "]") {
+		return nil
+	}
+	parts := strings.Split(name[4:len(name)-1], "+")
+	var comps []*Op
+	dev := 0
+	for _, pn := range parts {
+		c, ok := l.ops[pn]
+		if !ok {
+			return nil
+		}
+		comps = append(comps, c)
+		dev += c.Dev
+	}
+	op := &Op{Name: name, Kind: "same_block", Dev: dev, Plan: func(w *World, p *BlockPlan) {
+		for _, c := range comps {
+			sub := &BlockPlan{Dt: 5, Feed: true}
+			c.Plan(w, sub)
+			p.Txs = append(p.Txs, sub.Txs...)
+			p.Gov = append(p.Gov, sub.Gov...)
+			p.Feed = p.Feed && sub.Feed
+			if sub.Dt > p.Dt {
+				p.Dt = sub.Dt
+			}
+			if p.SetAtom == "" {
+				p.SetAtom = sub.SetAtom
+			}
+			if p.SetElys == "" {
+				p.SetElys = sub.SetElys
+			}
+		}
+	}}
+	l.ops[name] = op
+	return op
+}
+
+// blockTriples: every ordered selection of three DIFFERENT ops of set as one block.
+func blockTriples(set []string) []string {
+	var out []string
+	for _, a := range set {
+		for _, b := range set {
+			for _, c := range set {
+				if a != b && b != c && a != c {
+					out = append(out, BlockOf(a, b, c))
+				}
+			}
+		}
+	}
+	return out
+}
+
+func blockPairs(set []string) []string {
+	var out []string
+	for _, a := range set {
+		for _, b := range set {
+			if a != b {
+				out = append(out, BlockOf(a, b))
+			}
+		}
+	}
+	return out
+}
 
 func (l *OpLib) Select(names ...string) []*Op {
 	out := []*Op{}
@@ -925,6 +1003,24 @@ func NewOpLib() *OpLib {
 		}
 		p.Txs = one("lp1", &ctypes.MsgUncommitTokens{Creator: w.A("lp1").Addr.String(), Denom: "uedenb", Amount: amt})
 	})
+	// a LONG, LARGE incentive on the constant-product pool 2 (its only uatom incentive): 12 blocks x 1e8
+	l.Add("ext_incentive_long_p2_lp1", "ext_incentive", 0, func(w *World, p *BlockPlan) {
+		h := w.Height() + 1
+		p.Txs = one("lp1", &mctypes.MsgAddExternalIncentive{Sender: w.A("lp1").Addr.String(), RewardDenom: "uatom", PoolId: 2, FromBlock: h, ToBlock: h + 12, AmountPerBlock: I(1e8)})
+	})
+	// governance DELISTS / RELISTS an external reward denom while incentives paying it may be running
+	for _, v := range []struct {
+		n  string
+		on bool
+	}{{"delist", false}, {"relist", true}} {
+		v := v
+		l.Add("cfg_mc_"+v.n+"_uatom", "config", 1, func(w *World, p *BlockPlan) {
+			p.Gov = append(p.Gov, func(ctx sdk.Context) error {
+				_, err := mckeeper.NewMsgServerImpl(w.App.MasterchefKeeper).AddExternalRewardDenom(ctx, &mctypes.MsgAddExternalRewardDenom{Authority: w.Gov, RewardDenom: "uatom", MinAmount: math.NewInt(1), Supported: v.on})
+				return err
+			})
+		})
+	}
 	l.Add("ext_incentive_now_lp1", "ext_incentive", 0, func(w *World, p *BlockPlan) {
 		// starts in the very block that carries it: the first distribution is in the NEXT block's end-blocker
 		h := w.Height() + 1
